@@ -44,12 +44,39 @@ op = st.one_of(
     st.tuples(st.just("advance"), st.sampled_from([0, 1, 10, 25, 49, 50, 51, 250, 499, 500, 1000])).map(list),
     st.just(["settle"]),
 )
+# scenario: an entry is removed (or replaced) while an entry above it is still fading out - the situation two
+# concurrent shows on one light produce when the upper one is released with a fade
+under_fade = st.tuples(st.sampled_from(LIGHTS), st.sampled_from(PALETTE), st.sampled_from(PALETTE),
+                       st.sampled_from([500, 2000]), st.sampled_from([10, 50, 250, 499]),
+                       st.sampled_from(["remove", "remove", "recolor"]), st.sampled_from([0, 0, 50])).map(
+    lambda t: ["under_fade"] + list(t))
+
+
+def _expand_ops(ops):
+    out = []
+    for o in ops:
+        if o[0] == "under_fade":
+            _, light, low, high, fade, wait, what, f2 = o
+            twin = light == "l_rgb" and what == "remove" and f2 == 0
+            out += [["clear", light], ["color", light, low, 0, 1, "a"], ["color", light, high, 0, 2, "b"]]
+            out += [["twin", "clear"], ["twin", "color", high, 2, "b"]] if twin else []
+            out += [["advance", 50], ["remove", light, "b", fade]]
+            out += [["twin", "remove", "b", fade]] if twin else []
+            out += [["advance", wait]]
+            out += [["remove", light, "a", f2]] if what == "remove" else [["color", light, "ffff00", f2, 1, "a"]]
+            out += [["advance", 25]] + ([["twin", "compare"]] if twin else []) + [["advance", 250]] + \
+                ([["twin", "compare"]] if twin else [])
+        else:
+            out.append(o)
+    return out
+
+
 case_strategy = st.fixed_dictionaries({
     "backend": st.sampled_from(["virtual", "direct", "software", "batch"]),
     "brightness": st.sampled_from([1.0, 1.0, 0.5, 0.75]),
     "profile": st.booleans(),
     "rgbw_style": st.sampled_from(["duck_rgb", "duck_rgb", "white_only", "min_rgb"]),
-    "ops": st.lists(op, min_size=3, max_size=30),
+    "ops": st.lists(st.one_of(op, op, op, op, op, op, op, op, op, under_fade), min_size=3, max_size=30).map(_expand_ops),
 })
 
 
@@ -269,8 +296,12 @@ def check(case):
         def check_tracking(n, where):
             if case["backend"] not in ("virtual", "direct") or case["profile"]:
                 return      # a gamma profile is not linear: hardware interpolates between corrected endpoints
+            if n != "l_rgb":
+                return      # white channels are not linear in the colour (min of the components / white_only switch):
+                            # the hardware interpolates the mapped endpoints, not the mapped interpolation
             if rig.now < structural[n] + 2.1:
-                return      # after a removal the hardware may hold the visible colour while the logical fade restarts
+                return      # after a removal the hardware fade is one linear segment while the logical colour is a nested
+                            # interpolation (a fading-out entry over a fading entry): they only agree again at rest
             light = m.lights[n]
             exp = expected_channels(light, light.get_color())
             for cname, drivers in light.hw_drivers.items():
@@ -339,9 +370,32 @@ def check(case):
                         last_fade_end[n] = max(last_fade_end[n], now + fade / 1000.0)
                     structural[n] = now
                     m.lights[n].remove_from_stack_by_key(key, fade_ms=fade)
-                    model[n].pop(key, None)
+                    gone = model[n].pop(key, None)
+                    if gone is not None and fade:
+                        involved[n].append(gone[1])     # it keeps fading out for `fade` ms and may show through
                     involved[n].append(RGBColor("off"))
                     involved[n] += [c for _, c in model[n].values()]
+                elif k == "twin":
+                    # l_rgb2 is configured like l_rgb and only ever gets the upper entry of an under_fade scenario: once
+                    # the lower entry has been removed from l_rgb (instantly), both lights hold the same stack and their
+                    # hardware has to show the same - "as if the removed entry had never been set"
+                    tw = m.lights["l_rgb2"]
+                    if o[1] == "clear":
+                        tw.clear_stack()
+                    elif o[1] == "color":
+                        tw.color(RGBColor(o[2]), fade_ms=0, priority=o[3], key=o[4])
+                    elif o[1] == "remove":
+                        tw.remove_from_stack_by_key(o[2], fade_ms=o[3])
+                    elif o[1] == "compare" and case["backend"] == "virtual":
+                        classes.add("twin comparison under a fade-out")
+                        rig.advance(0.021)
+                        a_ = {c: [hw_value(d) for d in ds] for c, ds in m.lights["l_rgb"].hw_drivers.items()}
+                        b_ = {c: [hw_value(d) for d in ds] for c, ds in tw.hw_drivers.items()}
+                        if any(abs(x - y) > 0.03 for c in a_ for x, y in zip(a_[c], b_[c])):
+                            v("hardware-differs-from-twin", "l_rgb (lower entry set, then removed under a fading-out entry) shows "
+                              "%r, its twin which never had that entry shows %r; stacks %r / %r" % (
+                                  a_, b_, [(e.key, e.priority) for e in m.lights["l_rgb"].stack],
+                                  [(e.key, e.priority) for e in tw.stack]))
                 elif k == "clear":
                     n = o[1]
                     structural[n] = now
